@@ -461,11 +461,67 @@ func c04RunE2E(b core.Batch, r *core.Recorder) {
 	}
 }
 
+// c04retry416: the origin refuses a Range request with 416; the proxy's automatic retry without Range gets a 200
+// whose directives decide storability. Afterwards a plain GET shows whether that 200 was stored.
+func c04retry416(b core.Batch, r *core.Recorder, backend string, mode rig.Mode) {
+	var mu sync.Mutex
+	count := map[string]int{}
+	classes := map[string]string{"nostore": "no-store", "private": "private", "maxage0": "max-age=0", "storable": "max-age=600", "none": ""}
+	o := rig.StartOrigin(func(w http.ResponseWriter, q *http.Request, rec *rig.OriginReq) {
+		id := strings.Trim(q.URL.Path, "/")
+		rec.SetNote(id)
+		if q.Header.Get("Range") != "" {
+			w.Header().Set("Content-Range", "bytes */200")
+			w.WriteHeader(416)
+			return
+		}
+		mu.Lock()
+		count[id]++
+		v := count[id]
+		mu.Unlock()
+		cc := classes[strings.SplitN(id, "-", 2)[0]]
+		rig.ServeBody(w, 2, v, 200, map[string]string{"Cache-Control": cc})
+	})
+	defer o.Close()
+	p := rig.StartProxy(rig.ProxyOpts{Backend: backend, Retry416: true})
+	defer p.Close()
+	n := 0
+	for class, cc := range classes {
+		n++
+		id := fmt.Sprintf("%s-%s-%s-%d", class, backend, mode, n)
+		if !r.Case(id, cc) {
+			continue
+		}
+		r.Eval(1)
+		rig.Do(p, mode, o.Addr, rig.Req{Target: "/" + id, Header: [][2]string{{"Range", "bytes=5-9"}}})
+		seq := o.LastSeq()
+		r2 := rig.Do(p, mode, o.Addr, rig.Req{Target: "/" + id})
+		contacted := false
+		for _, g := range o.Since(seq) {
+			if g.Note == id {
+				contacted = true
+			}
+		}
+		r.Count("retry416_cases", 1)
+		r.Nontrivial("retry416", class, backend, string(mode))
+		if r2.Err != nil {
+			r.NotJudged("exchange-failed")
+			continue
+		}
+		mustNot := class == "nostore" || class == "private" || class == "maxage0"
+		if mustNot && !contacted {
+			r.Violation("C04", "C04:stored-despite:"+cc+":after-416-retry", fmt.Sprintf("a Range request was refused by the origin (416), the proxy's retry without Range got a 200 marked %q; the following plain GET was answered from the store", cc),
+				map[string]any{"id": id, "class": class}, map[string]any{"x_cache": r2.Get("X-Cache"), "cache_status": r2.Get("Cache-Status")})
+		}
+	}
+}
+
 func c04Run(b core.Batch, r *core.Recorder) {
 	if b.Str("mode", "e2e") == "func" {
 		c04RunFunc(b, r)
 	} else {
 		c04RunE2E(b, r)
+		c04retry416(b, r, b.Str("backend", "memory"), rig.Mode(b.Str("transport", "plain")))
 	}
 }
 
